@@ -195,7 +195,8 @@ class World(object):
         self.confroot = os.path.join(self.base, 'conf')
         os.makedirs(os.path.join(self.base, 'data'))
         os.makedirs(self.confroot)
-        self.allowed = [self.root, self.lockroot, os.path.join(self.base, 'locks')]
+        # (the legend cache lives below globals.cache.base_dir)
+        self.allowed = [self.root, self.lockroot, os.path.join(self.base, 'locks'), os.path.join(self.base, 'data', 'legends')]
         self.multiapp = multiapp
         self.decoys = []
         self._make_decoys()
@@ -237,7 +238,7 @@ class World(object):
                              'res': [RES0 / 2 ** z for z in range(self.levels)]}},
             'caches': {'c1': {'grids': [GRID], 'sources': ['src'], 'cache': kind.cache(self.root)}},
             'sources': {'src': {'type': 'wms', 'req': {'url': 'http://upstream.invalid/service', 'layers': 'a'},
-                                'forward_req_params': ['time', 'elevation']}},
+                                'forward_req_params': ['time', 'elevation'], 'wms_opts': {'legendgraphic': True}}},
         }
 
     def _make_app(self):
@@ -1164,6 +1165,15 @@ def robustness(ctx, kinds):
         cases.append(('wmts_kvp', '/service', wmts % (LAYER, '0', '0', '0') + '&TIME=' + v))
         cases.append(('wmts_kvp', '/service', wmts % (v, '0', '0', '0')))
         cases.append(('wmts_kvp', '/service', wmts % (LAYER, v, '0', '0')))
+    # the image format of a request: whatever caches by format (the legend cache keeps files per legend and scale) must not
+    # build a file name from it
+    legend = 'SERVICE=WMS&VERSION=1.1.1&REQUEST=GetLegendGraphic&LAYER=%s&SCALE=%d&FORMAT=%s'
+    for i, v in enumerate(vals + ['x/png/../../../decoy/evil.png', 'x/png/../../../../decoy/evil.png', 'png/../../evil.png',
+                                   'x/jpeg/../../../decoy/evil.jpeg', 'png%2f..%2f..%2fevil.png']):
+        cases.append(('wms', '/service', legend.replace('%s', LAYER, 1).replace('%d', str(1000 + i)).replace('%s', 'image/' + v)))
+        cases.append(('wms', '/service', legend.replace('%s', LAYER, 1).replace('%d', str(5000 + i)).replace('%s', v)))
+        cases.append(('wms', '/service', (wms % LAYER).replace('FORMAT=image/png', 'FORMAT=image/' + v)))
+        cases.append(('wms', '/service', (wms % LAYER).replace('GetMap', 'GetFeatureInfo') + '&QUERY_LAYERS=%s&X=1&Y=1&INFO_FORMAT=%s' % (LAYER, v)))
     from urllib.parse import unquote
     for v in vals:
         u = unquote(v, errors='replace').encode('utf8', 'replace').decode('latin1')
